@@ -343,6 +343,23 @@ func genG03(repo string, w *Out) error {
 		return fmt.Errorf("copy.go copier.closeWriter: expected asCloseWriter(c.dst) then cw.CloseWrite(), got %q", cwcalls)
 	}
 	w.DefBool("closewriter_calls_closewrite", true)
+	// close.go asCloseWriter: the value itself, else reflectx.LookupImpl on it (modelled in Lookup.v)
+	cl, err := Parse(repo, "internal/martian/close.go")
+	if err != nil {
+		return err
+	}
+	acw, err := cl.Func("asCloseWriter")
+	if err != nil {
+		return err
+	}
+	g03Canon(acw, "", "w")
+	acwSrc := cl.Src(acw.Body)
+	okShape := strings.Contains(acwSrc, "if cw, ok := w.(closeWriter); ok { return cw, ok }") &&
+		strings.Contains(acwSrc, "return reflectx.LookupImpl[closeWriter](reflect.ValueOf(w))")
+	if !okShape {
+		return fmt.Errorf("close.go asCloseWriter: body %q is not the shape the model knows", acwSrc)
+	}
+	w.DefBool("as_closewriter_direct_then_lookup", true)
 
 	// bicopy: one receive from donec per copier; grace timer armed after the first
 	bc, err := cp.Func("bicopy")
